@@ -119,6 +119,39 @@ def gen_mod(tier, seed):
     return cases
 
 
+# ---- a resolved type extended through the API (enumext): in place / through a typedef / through two typedefs
+def gen_ext(tier, seed):
+    rnd = random.Random(seed ^ 0xE47)
+    cases = []
+    N = ("-", "-")
+    for bits in (0, 1):
+        mx = 4294967295 if bits else 2147483647
+        lists = [[("a", None, N)], [("a", None, N), ("b", None, N)], [("a", "5", N)], [("a", "5", N), ("b", None, N)],
+                 [("a", "-5", N), ("b", None, N)], [("a", "7", N), ("b", "2", N)], [("a", "7", N), ("b", "2", N), ("c", None, N)],
+                 [("a", str(mx), N)], [("a", str(mx - 1), N)], [("a", str(mx - 1), N), ("b", None, N)],
+                 [("a", "0", N), ("b", "1", N), ("c", "2", N)], [("a", "10", ("o", "-")), ("b", None, ("-", "d"))],
+                 [("a", "0", N)], [("a", "1", N)], [("a", "-1", N)], [("a", "-2147483648", N)]]
+        alpha = ["n:78", "n:79", "n:61", "s:78:0", "s:78:1", "s:78:2", "s:79:5", "s:78:%d" % mx, "s:79:%d" % (mx - 1), "md", "vd"]
+        seqs = [[o] for o in alpha] + [list(p) for p in itertools.product(alpha, repeat=2)] + \
+               [["n:78", "n:79", "n:7a"], ["n:78", "n:78", "n:79"], ["s:78:%d" % (mx - 1), "n:79", "n:7a"], ["n:78", "ma", "n:79"],
+                ["s:78:1", "n:79", "n:7a"], ["n:78", "s:79:1", "n:7a"]]
+        if tier == "thorough":
+            seqs += [list(p) for p in itertools.product(alpha[:9], repeat=3)]
+        for form in "tci":
+            for leaf in (1, 2):
+                for ml in lists:
+                    mem = mod_case(bits, ml).split()[2]
+                    for ops in seqs:
+                        cases.append("enumext %d %s %d %s %s" % (bits, form, leaf, mem, ",".join(ops)))
+        names = ["a", "b", "c", "d"]
+        for _ in range(1500 if tier == "quick" else 30000):
+            k = rnd.randint(1, 4)
+            ml = [(names[i], rnd.choice([None, None, "0", "1", "5", "-3", "9", str(mx), str(mx - 1)]), rnd.choice(SUBS)) for i in range(k)]
+            ops = [rnd.choice(alpha + ["n:62", "n:7a", "n:77"]) for _ in range(rnd.randint(1, 5))]
+            cases.append("enumext %d %s %d %s %s" % (bits, rnd.choice("tci"), rnd.randint(1, 2), mod_case(bits, ml).split()[2], ",".join(ops)))
+    return cases
+
+
 def gen_api(tier, seed):
     rnd = random.Random(seed ^ 0xC14)
     cases = []
@@ -166,7 +199,7 @@ def run(res, tier, seed, proof):
     acases = gen_api(tier, seed)
     ago, aml, amism, askipped = simple_run(lib, res, acases)
     rejected_then_ok = sum(1 for g in ago if "eo" in g.split()[0])
-    mcases = gen_mod(tier, seed)
+    mcases = gen_mod(tier, seed) + gen_ext(tier, seed)
     mgo, mml, mmism, mskipped = simple_run(lib, res, mcases)
     mouts = {}
     for g in mgo:
@@ -189,12 +222,16 @@ def run(res, tier, seed, proof):
                     "if-feature, before and after the value/position statement; %d combinations), in a typedef used by two leaves: exhaustive "
                     "for length 1-2 over %d values, length 3 over 3 values x 5 combinations, duplicates/maximum next to an obsolete member, "
                     "random longer; the containers obtained through the first leaf are edited before the type is observed through the "
-                    "second" % (len(VALUES), len(API_ENUM), len(API_BITS), len(SUBS), len(MODVALS)),
+                    "second.  Plus resolved types EXTENDED through the API (enumext): 16 member lists (implicit, explicit, descending, negative, "
+                    "at and next to the maximum, with status) resolved in place / through a typedef / through two typedefs, observed "
+                    "through either of two leaves, then all sequences of 1-2 calls over 11 operations (SetNext, Set at 0/1/2/5/max/max-1, "
+                    "a repeated name, container edits) and selected longer ones (all of length 3 in thorough), random others: verdicts "
+                    "and all views must equal the model's calls continued from the state its member loop left" % (len(VALUES), len(API_ENUM), len(API_BITS), len(SUBS), len(MODVALS)),
                mismatches=mism + amism + mmism, skipped_unmodelled=skipped + askipped + mskipped,
                distribution=dict(impl_outcomes=outs, api_cases=len(acases), api_sequences_with_an_accepted_call_after_a_rejected_one=rejected_then_ok,
                                  api_cases_editing_a_returned_container=sum(1 for g in ago if "r" in g.split()[0][4:]),
-                                 substatement_cases=len(mcases), substatement_impl_outcomes=mouts,
-                                 substatement_cases_with_an_obsolete_member=sum(1 for c in mcases if "o" in "".join(x.split(":", 2)[2] for x in c.split()[2].split(",")))),
+                                 substatement_cases=len(mcases), extension_cases=sum(1 for c in mcases if c.startswith("enumext")), substatement_impl_outcomes=mouts,
+                                 substatement_cases_with_an_obsolete_member=sum(1 for c in mcases if c.startswith("enummod") and "o" in "".join(x.split(":", 2)[2] for x in c.split()[2].split(",")))),
                samples=[cases[40], cases[len(cases) // 2], cases[-1], acases[len(acases) // 2], acases[-1], mcases[len(mcases) // 2], mcases[-1]],
                sample_observations=[go[40], go[len(cases) // 2], go[-1], ago[len(acases) // 2], ago[-1], mgo[len(mcases) // 2], mgo[-1]])
     return cov, ["member names are plain identifiers; through Type.resolve, after the first recorded error only the presence of an "
